@@ -203,6 +203,11 @@ impl Iterator for BitBoardIter {
     #[cfg(target_feature = "bmi2")]
     #[cfg(any(target_arch = "x86", target_arch = "x86_64"))]
     fn nth(&mut self, n: usize) -> Option<Self::Item> {
+        // a board has at most 64 squares, and `1 << n` overflows for larger `n`
+        if n >= 64 {
+            return None;
+        }
+
         let x = unsafe { core::arch::x86_64::_pdep_u64(1 << n, self.0.to_u64()) }.trailing_zeros()
             as u8;
         let pos = Pos::from_u8(x)?;
